@@ -136,8 +136,8 @@ def plan(tier, seed):
 LINEAR = ("line", "quad", "hexahedron", "triangle", "tetra")
 
 
-def r_integral(mesh):
-    """int r dA of a 2D quad mesh with r = second coordinate (checker-side, 3x3 Gauss per cell)"""
+def r_integral(mesh, rcol=1):
+    """int r dA of a 2D quad mesh with r = coordinate `rcol` (checker-side, 3x3 Gauss per cell)"""
     import felupe as fem
 
     q = fem.GaussLegendre(order=2, dim=2)
@@ -149,7 +149,7 @@ def r_integral(mesh):
             h = el.function(p)
             dh = el.gradient(p)
             J = X.T @ dh
-            tot += (h @ X[:, 1]) * np.linalg.det(J) * w
+            tot += (h @ X[:, rcol]) * np.linalg.det(J) * w
     return tot
 
 
@@ -188,6 +188,11 @@ def operations(mesh, tier):
         if mesh.points[:, 1].min() > 1e-6:
             for n, phi in ((4, 90), (3, 180), (7, 360)):
                 op(f"revolve(n={n},phi={phi})", lambda m, n=n, phi=phi: m.revolve(n=n, phi=phi), lambda v, m, n=n, phi=phi: (n - 1) * np.sin(np.deg2rad(phi / (n - 1))) * r_integral(m), post="revolve")
+            # angle arrays (non-uniform, lengths different from the default n): sum_k sin(dphi_k) * int r dA
+            for lab, phis in (("4 angles", np.array([0.0, 10.0, 50.0, 90.0])), ("16 angles", np.linspace(0.0, 240.0, 16)), ("13 angles, closed", np.linspace(0.0, 360.0, 13))):
+                op(f"revolve(phi={lab})", lambda m, phis=phis: m.revolve(phi=phis), lambda v, m, phis=phis: np.sin(np.deg2rad(np.diff(phis))).sum() * r_integral(m), post="revolve")
+        if mesh.points[:, 0].min() > 1e-6:
+            op("revolve(n=4,phi=90,axis=1)", lambda m: m.revolve(n=4, phi=90, axis=1), lambda v, m: 3 * np.sin(np.deg2rad(30.0)) * r_integral(m, 0), post="revolve")
         op("convert(order=2)", lambda m: m.convert(order=2), post="midpoints")
         op("convert(order=2,midfaces)", lambda m: m.convert(order=2, calc_midfaces=True), post="midpoints")
         op("add_midpoints_edges", lambda m: m.add_midpoints_edges(), post="midpoints")
